@@ -1,3 +1,4 @@
+import ChmpyVerif.Model.PyStr
 /-
 Hand-written executable model of `chmpy/core/element.py` (lookup logic only; the
 data table is GENERATED into `Gen/Elements.lean` from the source on every run).
@@ -6,9 +7,7 @@ Strings are `List Ch`, ASCII semantics of `str.strip / capitalize / lower /
 isdigit` (non-ASCII text is outside the model and outside the property's spellings).
 -/
 namespace ChmpyVerif.Element
-
-/-- a character = its code point -/
-abbrev Ch := Nat
+open ChmpyVerif.PyStr
 
 /-- a decimal literal exactly as written in the source: `mant × 10^(-exp)` -/
 structure Dec where
@@ -34,33 +33,7 @@ deriving DecidableEq, Repr
 
 deriving instance DecidableEq for Except
 
-/-! ### Python string primitives (ASCII)
-
-Characters are modelled as code points (`Nat`): the case maps are `± 32`, and every
-character-level fact is linear arithmetic. The driver converts with `Char.toNat`. -/
-
-def pyIsSpace (c : Ch) : Bool := c = 32 || (9 ≤ c && c ≤ 13) || (28 ≤ c && c ≤ 31)
-
-def isUpperA (c : Ch) : Bool := 65 ≤ c && c ≤ 90
-def isLowerA (c : Ch) : Bool := 97 ≤ c && c ≤ 122
-def isLetterA (c : Ch) : Bool := isUpperA c || isLowerA c
-def isDigitA (c : Ch) : Bool := 48 ≤ c && c ≤ 57
-
-def toLowerA (c : Ch) : Ch := if isUpperA c then c + 32 else c
-def toUpperA (c : Ch) : Ch := if isLowerA c then c - 32 else c
-
-def lower (s : List Ch) : List Ch := s.map toLowerA
-
-def strip (s : List Ch) : List Ch :=
-  ((s.dropWhile pyIsSpace).reverse.dropWhile pyIsSpace).reverse
-
-def capitalize : List Ch → List Ch
-  | [] => []
-  | c :: cs => toUpperA c :: lower cs
-
-def isDigitStr (s : List Ch) : Bool := !s.isEmpty && s.all isDigitA
-
-def digitsToNat (s : List Ch) : Nat := s.foldl (fun acc c => 10 * acc + (c - 48)) 0
+export ChmpyVerif.PyStr (Ch pyIsSpace isUpperA isLowerA isLetterA isDigitA toLowerA toUpperA lower strip capitalize isDigitStr digitsToNat)
 
 /-- greedy `[A-Za-z]+` prefix of `re.match("([A-Z]+).*", label, IGNORECASE)`;
 `none` when the label does not start with a letter -/
